@@ -1,5 +1,10 @@
 //! C02 part (b): explicit-state exploration of well-formed edit histories through the public
 //! builder / edit APIs.  In every state: emit must not panic and the output must validate.
+//! The same state space carries three more oracles: C08 (emission is repeatable, a fixpoint, and
+//! an emit slipped in anywhere in the history changes nothing), C04 (histories made only of
+//! additions leave everything that was there before as it was: the unedited output embeds in the
+//! edited one, and exactly the added entities are new) and C07 (a history that ends in gc leaves
+//! nothing unreachable, and one more gc changes nothing).
 
 use crate::core::*;
 use crate::hist::*;
@@ -24,15 +29,23 @@ pub enum EOp {
     SetStart,
     ClearStart,
     Gc,
+    /// grow the body of the first / last local function in place, through `block_mut`
+    GrowBody(u8),
+    /// rewrite small i32 constants of the first local function with a `VisitorMut`
+    BumpConsts,
 }
 
 pub fn all_ops() -> Vec<EOp> {
     let mut v = vec![];
-    for s in 0..3 {
-        for b in 0..5 {
-            v.push(EOp::AddFunc(s, b));
-        }
+    // signatures x body kinds, pairwise rather than the full product
+    for s in 0..4 {
+        v.push(EOp::AddFunc(s, 0));
     }
+    for b in 1..7 {
+        v.push(EOp::AddFunc(0, b));
+    }
+    v.push(EOp::AddFunc(1, 1));
+    v.push(EOp::AddFunc(3, 5));
     v.push(EOp::ExportNewestFunc);
     for k in 0..3 {
         v.push(EOp::ExportFirst(k));
@@ -58,7 +71,30 @@ pub fn all_ops() -> Vec<EOp> {
     v.push(EOp::SetStart);
     v.push(EOp::ClearStart);
     v.push(EOp::Gc);
+    v.push(EOp::GrowBody(0));
+    v.push(EOp::GrowBody(1));
+    v.push(EOp::BumpConsts);
     v
+}
+
+/// operations that only add something
+fn additive(op: &EOp) -> bool {
+    matches!(op, EOp::AddFunc(..) | EOp::ExportNewestFunc | EOp::ExportFirst(_) | EOp::AddImport(_) | EOp::AddGlobal(_) | EOp::AddData(_) | EOp::AddElem(_))
+}
+
+struct Bump;
+impl walrus::ir::VisitorMut for Bump {
+    fn visit_const_mut(&mut self, c: &mut walrus::ir::Const) {
+        if let Value::I32(v) = &mut c.value {
+            if *v >= 0 && *v < 64 {
+                *v += 1 << 21;
+            }
+        }
+    }
+}
+
+fn counts(m: &Module) -> [usize; 6] {
+    [m.funcs.iter().count(), m.tables.iter().count(), m.memories.iter().count(), m.globals.iter().count(), m.elements.iter().count(), m.data.iter().count()]
 }
 
 #[derive(Clone, Copy, Debug)]
@@ -79,8 +115,39 @@ pub struct EObj {
 
 pub struct EditSubject<'a> {
     pub wasm: &'a [u8],
-    /// "C02": the output must validate; "C08": emission must be repeatable and a fixpoint
+    /// "C02": the output must validate; "C08": emission must be repeatable and a fixpoint;
+    /// "C04": additions leave the rest untouched; "C07": gc after edits is precise and idempotent
     pub oracle: &'static str,
+    /// the unedited output, decoded, and the entity counts of the freshly parsed module (C04)
+    plain: Option<(wmodel::WModule, [usize; 6])>,
+}
+
+impl<'a> EditSubject<'a> {
+    pub fn new(wasm: &'a [u8], oracle: &'static str) -> Self {
+        let mut plain = None;
+        if oracle == "C04" {
+            if let Ok(mut m) = parse(wasm, &Cfg::default()) {
+                let c = counts(&m);
+                if let Ok(out) = emit(&mut m) {
+                    if let Ok(w) = wmodel::decode(&out) {
+                        plain = Some((w, c));
+                    }
+                }
+            }
+        }
+        EditSubject { wasm, oracle, plain }
+    }
+    /// the history replayed with one extra (discarded) emit before operation `at`
+    fn with_emit_at(&self, hist: &[EOp], at: usize) -> Result<Vec<u8>, String> {
+        let mut o = self.fresh()?;
+        for (i, op) in hist.iter().enumerate() {
+            if i == at {
+                o.m.emit_wasm();
+            }
+            apply_op(&mut o, op);
+        }
+        Ok(o.m.emit_wasm())
+    }
 }
 
 fn const_for(b: &mut InstrSeqBuilder, t: ValType, k: i32) {
@@ -122,7 +189,8 @@ fn apply_op(o: &mut EObj, op: &EOp) {
             let (params, results): (Vec<ValType>, Vec<ValType>) = match s {
                 0 => (vec![], vec![]),
                 1 => (vec![ValType::I32], vec![ValType::I32]),
-                _ => (vec![], vec![ValType::I64]),
+                2 => (vec![], vec![ValType::I64]),
+                _ => (vec![ValType::I32], vec![ValType::I32, ValType::I32]),
             };
             let callee = first_func_with(m, &[], &[]);
             let g = m.globals.iter().find(|g| g.ty == ValType::I32).map(|g| g.id());
@@ -154,6 +222,18 @@ fn apply_op(o: &mut EObj, op: &EOp) {
                         if let Some((t, _)) = tab {
                             fb.table_size(t).drop();
                         }
+                    }
+                    5 => {
+                        // a block type with a parameter and one result, made through the public constructor
+                        let bt = ir::InstrSeqType::new(&mut m.types, &[ValType::I32], &[ValType::I32]);
+                        fb.i32_const(k).block(bt, |b| {
+                            b.i32_const(1).binop(ir::BinaryOp::I32Add);
+                        }).drop();
+                    }
+                    6 => {
+                        // two parameters in, two results out of an if/else
+                        let bt = ir::InstrSeqType::new(&mut m.types, &[ValType::I32, ValType::I32], &[ValType::I32, ValType::I32]);
+                        fb.i32_const(k).i32_const(2).i32_const(1).if_else(bt, |t| { t.binop(ir::BinaryOp::I32Add).i32_const(3); }, |_e| {}).drop().drop();
                     }
                     _ => {}
                 }
@@ -339,6 +419,27 @@ fn apply_op(o: &mut EObj, op: &EOp) {
             }
         }
         EOp::ClearStart => m.start = None,
+        EOp::GrowBody(which) => {
+            let ids: Vec<FunctionId> = m.funcs.iter_local().map(|(id, _)| id).collect();
+            let id = if which == 0 { ids.first().copied() } else { ids.last().copied() };
+            if let Some(id) = id {
+                let lf = m.funcs.get_mut(id).kind.unwrap_local_mut();
+                let entry = lf.entry_block();
+                let seq = lf.block_mut(entry);
+                for j in 0..6 {
+                    seq.instrs.insert(0, (ir::Instr::Drop(ir::Drop {}), Default::default()));
+                    seq.instrs.insert(0, (ir::Instr::Const(ir::Const { value: Value::I32(70_000 + k * 8 + j) }), Default::default()));
+                }
+            }
+        }
+        EOp::BumpConsts => {
+            let id = m.funcs.iter_local().map(|(id, _)| id).next();
+            if let Some(id) = id {
+                let lf = m.funcs.get_mut(id).kind.unwrap_local_mut();
+                let entry = lf.entry_block();
+                ir::dfs_pre_order_mut(&mut Bump, lf, entry);
+            }
+        }
         EOp::Gc => {
             walrus::passes::gc::run(m);
             // gc may have deleted what this history added
@@ -390,6 +491,63 @@ impl<'a> Subject for EditSubject<'a> {
                     Err(e) => fs.push(Finding { sig: "own-output-rejected".into(), detail: format!("{:#}", e) }),
                 }
             }
+            for at in 0..hist.len() {
+                match self.with_emit_at(hist, at) {
+                    Ok(o2) if o2 != out => fs.push(Finding {
+                        sig: format!("emit-has-side-effect:{}", crate::props::modhist::first_diff(&out, &o2)),
+                        detail: format!("the edit history {:?} yields different bytes when the module is also emitted (and the bytes discarded) before operation #{}", hist, at),
+                    }),
+                    _ => {}
+                }
+            }
+            return (wmodel::fnv(&out), fs);
+        }
+        if self.oracle == "C04" {
+            if let (Some((plain, c0)), true) = (&self.plain, hist.iter().all(additive)) {
+                if let Ok(edited) = wmodel::decode(&out) {
+                    let c1 = counts(&o.m);
+                    match wmodel::iso(&edited, plain, wmodel::IsoMode::Embed) {
+                        Ok(maps) => {
+                            // exactly the added entities are new
+                            let spaces = [wmodel::Space::Func, wmodel::Space::Table, wmodel::Space::Mem, wmodel::Space::Global, wmodel::Space::Elem, wmodel::Space::Data];
+                            for (i, sp) in spaces.iter().enumerate() {
+                                let new = maps.fwd[wmodel::iso::sidx(*sp)].iter().filter(|x| x.is_none()).count();
+                                let want = c1[i].saturating_sub(c0[i]);
+                                if new != want {
+                                    fs.push(Finding {
+                                        sig: format!("additions-miscounted:{:?}", sp),
+                                        detail: format!("after the additions {:?} the module holds {} more {:?} entities than before, the emitted binary {} more than the unedited output", hist, want, sp, new),
+                                    });
+                                }
+                            }
+                        }
+                        Err(ms) => {
+                            for mmm in ms {
+                                fs.push(Finding {
+                                    sig: format!("addition-disturbed-existing:{}", mmm.sig),
+                                    detail: format!("after the additions {:?} the unedited output no longer embeds in the edited one: {}", hist, mmm.detail),
+                                });
+                            }
+                        }
+                    }
+                }
+            }
+            return (wmodel::fnv(&out), fs);
+        }
+        if self.oracle == "C07" {
+            if hist.last() == Some(&EOp::Gc) && wmodel::validate214(&out, wmodel::FeatureSet::DEFAULT).is_ok() {
+                for (sig, detail) in crate::props::gcprops::precision_findings(&out) {
+                    fs.push(Finding { sig, detail: format!("after the edit history {:?}: {}", hist, detail) });
+                }
+                walrus::passes::gc::run(&mut o.m);
+                let again = o.m.emit_wasm();
+                if again != out {
+                    fs.push(Finding {
+                        sig: format!("gc-not-idempotent:{}", crate::props::modhist::first_diff(&out, &again)),
+                        detail: format!("after the edit history {:?}, one more gc changes the emitted bytes ({} -> {} bytes)", hist, out.len(), again.len()),
+                    });
+                }
+            }
             return (wmodel::fnv(&out), fs);
         }
         if let Err(e) = wmodel::validate214(&out, wmodel::FeatureSet::DEFAULT) {
@@ -439,12 +597,12 @@ pub fn recheck(c: &Case) -> Vec<Violation> {
     recheck_as("C02", c)
 }
 pub fn recheck_as(oracle: &'static str, c: &Case) -> Vec<Violation> {
-    let s = EditSubject { wasm: &c.wasm, oracle };
+    let s = EditSubject::new(&c.wasm, oracle);
     let h = ops_from(&c.cfg["edits"]);
     match replay(&s, &h) {
         Ok((_, fs)) => fs.into_iter().map(|f| Violation::new(oracle, f.sig, f.detail, c)).collect(),
         Err(f) => {
-            if oracle == "C08" {
+            if oracle != "C02" {
                 vec![] // panics while editing / emitting are C02's
             } else {
                 vec![Violation::new("C02", format!("edit-{}", f.sig), f.detail, c)]
@@ -457,10 +615,15 @@ pub fn run_model(args: &Args, ev: &mut Ev) -> Vec<Violation> {
     run_model_as("C02", args, ev)
 }
 pub fn run_model_as(oracle: &'static str, args: &Args, ev: &mut Ev) -> Vec<Violation> {
-    let depth = if args.tier == Tier::Quick { 2 } else { 3 };
+    // C08 replays every history once more per position (emit commutation): one level less
+    let depth = match (oracle, args.tier) {
+        ("C08", Tier::Quick) => 2,
+        (_, Tier::Quick) | ("C08", Tier::Thorough) => 3,
+        _ => 4,
+    };
     let bs = bases();
     let (res, _) = pmap(&bs, args.threads, None, |(_, wasm)| {
-        let s = EditSubject { wasm, oracle };
+        let s = EditSubject::new(wasm, oracle);
         explore(&s, depth)
     });
     let mut viol = vec![];
@@ -474,7 +637,7 @@ pub fn run_model_as(oracle: &'static str, args: &Args, ev: &mut Ev) -> Vec<Viola
         model.insert(name.clone(), json!({"states": st.states, "transitions": st.transitions, "merged": st.merged}));
         for f in found {
             let c = Case { family: "edits".into(), coords: name.clone(), wasm: wasm.clone(), cfg: json!({"edits": ops_json(&f.hist)}) };
-            if oracle == "C08" && f.finding.sig.starts_with("panic:") {
+            if oracle != "C02" && f.finding.sig.starts_with("panic:") {
                 continue;
             }
             let sig = if f.finding.sig.starts_with("panic:") { format!("edit-{}", f.finding.sig) } else { f.finding.sig };
